@@ -43,6 +43,7 @@ type Params struct {
 	EnforceBIP68                              bool
 	Verify                                    ScriptVerifier
 	SigopCost                                 func(tx *reftx.Tx, spent []Coin, flags Flags) uint32 // nil: 0
+	Net                                       int                                                   // 0: main rules; 3 / 4: the difficulty exceptions of testnet3 / testnet4
 }
 
 func DefaultParams() Params {
